@@ -110,9 +110,15 @@ type VM struct {
 	maxSteps int
 }
 
+// DefaultMaxSteps bounds the work of one Execute call unless SetMaxSteps
+// chooses another limit. Without a default, a compiled `while true {}` never
+// returned: no caller of NewVM set a limit.
+const DefaultMaxSteps = 100_000_000
+
 // NewVM creates a new virtual machine
 func NewVM() *VM {
 	vm := &VM{
+		maxSteps:   DefaultMaxSteps,
 		stack:      make([]Value, 0, 256),
 		locals:     make(map[string]Value),
 		globals:    make(map[string]Value),
@@ -1614,8 +1620,8 @@ func floatToString(f float64) string {
 	return fmt.Sprintf("%g", f)
 }
 
-// SetMaxSteps sets the maximum number of execution steps.
-// 0 means unlimited (default). Use this to prevent infinite loops.
+// SetMaxSteps sets the maximum number of execution steps (DefaultMaxSteps
+// unless changed). 0 means unlimited.
 func (vm *VM) SetMaxSteps(maxSteps int) {
 	vm.maxSteps = maxSteps
 }
